@@ -165,6 +165,32 @@ func encValDepth(sb *strings.Builder, v interface{}, depth int) {
 		sb.WriteString("C")
 	default:
 		rv := reflect.ValueOf(v)
+		if rv.Type().PkgPath() == "main" {
+			// a value of one of the harness's named types: rendered as the value of its underlying type
+			switch rv.Kind() {
+			case reflect.String:
+				encVal(sb, rv.String())
+				return
+			case reflect.Bool:
+				encVal(sb, rv.Bool())
+				return
+			case reflect.Int:
+				encVal(sb, int(rv.Int()))
+				return
+			case reflect.Int32:
+				encVal(sb, int32(rv.Int()))
+				return
+			case reflect.Int64:
+				encVal(sb, rv.Int())
+				return
+			case reflect.Float32:
+				encVal(sb, float32(rv.Float()))
+				return
+			case reflect.Float64:
+				encVal(sb, rv.Float())
+				return
+			}
+		}
 		switch rv.Kind() {
 		case reflect.Func:
 			p := rv.Pointer()
@@ -173,6 +199,12 @@ func encValDepth(sb *strings.Builder, v interface{}, depth int) {
 			} else {
 				sb.WriteString("H") // host functions are not told apart in observations
 			}
+		case reflect.Struct:
+			if tid := structTypeID(rv.Type()); tid >= 0 {
+				fmt.Fprintf(sb, "R%d", tid) // a struct result is told apart by its type only
+				return
+			}
+			sb.WriteString("X")
 		case reflect.Ptr:
 			if rv.IsNil() {
 				sb.WriteString("P")
@@ -295,6 +327,64 @@ func (p *valParser) val() interface{} {
 			out = append(out, p.val())
 		}
 		return out
+	case 'Z', 'Y':
+		// the typed twin of A / O: a homogeneous array becomes a typed slice ([]string, []int, []int64, []float64,
+		// []bool, []map[string]interface{}), a homogeneous map a typed map; the model reads them as A / O
+		n, _ := strconv.Atoi(t[1:])
+		var keys []string
+		var vals []interface{}
+		for j := 0; j < n; j++ {
+			if t[0] == 'Y' {
+				k := p.next()
+				keys = append(keys, string(unhx(k[1:])))
+			}
+			vals = append(vals, p.val())
+		}
+		var et reflect.Type
+		homog := n > 0
+		for _, v := range vals {
+			if v == nil {
+				homog = false
+				break
+			}
+			vt := reflect.TypeOf(v)
+			if et == nil {
+				et = vt
+			} else if et != vt {
+				homog = false
+			}
+		}
+		if homog {
+			switch et.Kind() {
+			case reflect.String, reflect.Int, reflect.Int64, reflect.Float64, reflect.Bool:
+			case reflect.Map:
+				homog = t[0] == 'Z' && et == reflect.TypeOf(map[string]interface{}{})
+			default:
+				homog = false
+			}
+		}
+		if t[0] == 'Z' {
+			if !homog {
+				return append([]interface{}{}, vals...)
+			}
+			sl := reflect.MakeSlice(reflect.SliceOf(et), 0, n)
+			for _, v := range vals {
+				sl = reflect.Append(sl, reflect.ValueOf(v))
+			}
+			return sl.Interface()
+		}
+		if !homog {
+			out := map[string]interface{}{}
+			for j, k := range keys {
+				out[k] = vals[j]
+			}
+			return out
+		}
+		mp := reflect.MakeMapWithSize(reflect.MapOf(reflect.TypeOf(""), et), n)
+		for j, k := range keys {
+			mp.SetMapIndex(reflect.ValueOf(k), reflect.ValueOf(vals[j]))
+		}
+		return mp.Interface()
 	case 'O':
 		n, _ := strconv.Atoi(t[1:])
 		out := map[string]interface{}{}
@@ -321,6 +411,16 @@ func (p *valParser) val() interface{} {
 		return context.Background()
 	case 'X':
 		return struct{ A int }{1}
+	case 'R':
+		// R<id>:<n> S<name> <value> ...: the struct of the palette; the listed fields are for the model
+		f := strings.Split(t[1:], ":")
+		id, _ := strconv.Atoi(strings.Split(f[0], ".")[0])
+		n, _ := strconv.Atoi(f[1])
+		for j := 0; j < n; j++ {
+			p.next()
+			p.val()
+		}
+		return structPalette[id].val
 	}
 	panic("bad value token " + t)
 }
@@ -375,7 +475,30 @@ var ctxType = reflect.TypeOf((*context.Context)(nil)).Elem()
 var errType = reflect.TypeOf((*error)(nil)).Elem()
 var ifaceType = reflect.TypeOf((*interface{})(nil)).Elem()
 
+// named (defined) types for declared parameter types: "N" + the letter of the underlying type
+type (
+	NamedStr  string
+	NamedBool bool
+	NamedInt  int
+	NamedI32  int32
+	NamedI64  int64
+	NamedF32  float32
+	NamedF64  float64
+	NamedAny  interface{}
+	NamedStrs []string
+)
+
+var namedTypes = map[string]reflect.Type{"s": reflect.TypeOf(NamedStr("")), "b": reflect.TypeOf(NamedBool(false)), "i": reflect.TypeOf(NamedInt(0)),
+	"i32": reflect.TypeOf(NamedI32(0)), "i64": reflect.TypeOf(NamedI64(0)), "f32": reflect.TypeOf(NamedF32(0)), "f64": reflect.TypeOf(NamedF64(0)),
+	"a": reflect.TypeOf((*NamedAny)(nil)).Elem(), "[s": reflect.TypeOf(NamedStrs(nil))}
+
 func goType(t string) reflect.Type {
+	if strings.HasPrefix(t, "N") {
+		if nt, ok := namedTypes[t[1:]]; ok {
+			return nt
+		}
+		panic("bad named type " + t)
+	}
 	switch t {
 	case "s":
 		return reflect.TypeOf("")
@@ -490,4 +613,125 @@ func makeHost(h hostSpec, log *callLog) interface{} {
 		}
 	})
 	return fn.Interface()
+}
+
+// ---------- struct values ----------
+// A palette of Go struct types.  For each value the fields a selector can read are written down BY HAND next to
+// it (Go's promotion rules applied on paper, not through reflection): that list is what the model gets.
+
+type SBase struct {
+	ID     int
+	Owner  string
+	hidden int
+}
+
+type SInner struct {
+	K int64
+	S string
+}
+
+type SAcct struct {
+	SBase
+	Balance float64
+	Tags    []interface{}
+	Meta    map[string]interface{}
+	Ptr     *SBase
+	When    time.Time
+	Nested  SInner
+	Any     interface{}
+	Ratio   float32
+	Count   int32
+	Flag    bool
+	secret  string
+}
+
+type SPtrEmb struct {
+	*SInner
+	Name string
+}
+
+type SShadow struct {
+	SBase
+	ID string
+}
+
+type SDeep struct {
+	SPtrEmb
+	Level int32
+}
+
+type structEntry struct {
+	val    interface{}
+	fields []string // name, wire value, ...
+}
+
+var structPalette []structEntry
+
+var structTypes = []reflect.Type{reflect.TypeOf(SBase{}), reflect.TypeOf(SInner{}), reflect.TypeOf(SAcct{}), reflect.TypeOf(SPtrEmb{}), reflect.TypeOf(SShadow{}), reflect.TypeOf(SDeep{})}
+
+func structTypeID(t reflect.Type) int {
+	for i, x := range structTypes {
+		if x == t {
+			return i
+		}
+	}
+	return -1
+}
+
+func structWire(id int) string {
+	e := structPalette[id]
+	type kv struct{ k, v string }
+	var es []kv
+	for i := 0; i+1 < len(e.fields); i += 2 {
+		es = append(es, kv{e.fields[i], e.fields[i+1]})
+	}
+	sort.Slice(es, func(i, j int) bool { return es[i].k < es[j].k })
+	var sb strings.Builder
+	fmt.Fprintf(&sb, "R%d.%d:%d", id, structTypeID(reflect.TypeOf(e.val)), len(es))
+	for _, x := range es {
+		sb.WriteString(" S" + hx([]byte(x.k)) + " " + x.v)
+	}
+	return sb.String()
+}
+
+func init() {
+	g := func(s string) string { return "G" + hx([]byte(s)) }
+	str := func(s string) string { return "S" + hx([]byte(s)) }
+	// 0: SBase{7, "ann"}
+	structPalette = append(structPalette, structEntry{SBase{ID: 7, Owner: "ann", hidden: 3}, []string{"ID", "Ii:7", "Owner", str("ann")}})
+	// 1: SInner{-5, "in"}
+	structPalette = append(structPalette, structEntry{SInner{K: -5, S: "in"}, []string{"K", "Ii64:-5", "S", str("in")}})
+	// 2: SAcct embedding SBase{42, "bob"}: ID and Owner are promoted
+	acct := SAcct{SBase: SBase{ID: 42, Owner: "bob", hidden: 9}, Balance: 12.5, Tags: []interface{}{"x", 2}, Meta: map[string]interface{}{"k": "v"},
+		Ptr: nil, When: time.Unix(86400, 0).UTC(), Nested: SInner{K: 9007199254740993, S: ""}, Any: nil, Ratio: 0.25, Count: -3, Flag: true, secret: "s"}
+	structPalette = append(structPalette, structEntry{acct, nil})
+	structPalette = append(structPalette, structEntry{SBase{ID: 42, Owner: "bob", hidden: 9}, []string{"ID", "Ii:42", "Owner", str("bob")}})   // 3: the embedded part of 2
+	structPalette = append(structPalette, structEntry{SInner{K: 9007199254740993, S: ""}, []string{"K", "Ii64:9007199254740993", "S", str("")}}) // 4: Nested of 2
+	structPalette[2].fields = []string{"ID", "Ii:42", "Owner", str("bob"), "SBase", "", "Balance", g("12.5"), "Tags", "A2 " + str("x") + " Ii:2",
+		"Meta", "O1 " + str("k") + " " + str("v"), "Ptr", "P", "When", "M86400000000000:0", "Nested", "", "Any", "N", "Ratio", g("0.25"), "Count", "Ii32:-3", "Flag", "T"}
+	// 5: SPtrEmb with a non-nil embedded pointer: K and S are promoted through the pointer; the pointer itself is opaque
+	structPalette = append(structPalette, structEntry{SPtrEmb{SInner: &SInner{K: 11, S: "p"}, Name: "pe"}, []string{"K", "Ii64:11", "S", str("p"), "Name", str("pe"), "SInner", "X1"}})
+	// 6: SPtrEmb with a nil embedded pointer: reading a promoted field panics inside reflect (an error)
+	structPalette = append(structPalette, structEntry{SPtrEmb{SInner: nil, Name: "nil"}, []string{"Name", str("nil"), "SInner", "P"}})
+	// 7: SShadow: the outer ID hides the promoted one
+	structPalette = append(structPalette, structEntry{SShadow{SBase: SBase{ID: 1, Owner: "sh"}, ID: "outer"}, nil})
+	structPalette = append(structPalette, structEntry{SBase{ID: 1, Owner: "sh"}, []string{"ID", "Ii:1", "Owner", str("sh")}}) // 8: embedded part of 7
+	structPalette[7].fields = []string{"ID", str("outer"), "Owner", str("sh"), "SBase", ""}
+	// 9: SDeep: promotion through two levels (SDeep -> SPtrEmb -> *SInner)
+	structPalette = append(structPalette, structEntry{SDeep{SPtrEmb: SPtrEmb{SInner: &SInner{K: 77, S: "deep"}, Name: "mid"}, Level: 2}, nil})
+	structPalette = append(structPalette, structEntry{SPtrEmb{SInner: &SInner{K: 77, S: "deep"}, Name: "mid"}, []string{"K", "Ii64:77", "S", str("deep"), "Name", str("mid"), "SInner", "X1"}}) // 10
+	structPalette[9].fields = []string{"K", "Ii64:77", "S", str("deep"), "Name", str("mid"), "SInner", "X1", "SPtrEmb", "", "Level", "Ii32:2"}
+	// nested struct wires are filled in after all entries exist
+	fix := func(id int, name string, sub int) {
+		f := structPalette[id].fields
+		for i := 0; i+1 < len(f); i += 2 {
+			if f[i] == name {
+				f[i+1] = structWire(sub)
+			}
+		}
+	}
+	fix(2, "SBase", 3)
+	fix(2, "Nested", 4)
+	fix(7, "SBase", 8)
+	fix(9, "SPtrEmb", 10)
 }
